@@ -106,6 +106,13 @@ def main():
             ok, detail = resolve(res['spec'] + '_concrete')(res['params'], res['model'])
         except Exception as e:
             ok, detail = None, 'replay crashed: %r' % (e,)
+        if ok is None and str(detail).startswith('UNCONFIRMED'):
+            # abstract alarm (stub-based obligation) that the dynamic replay could not reproduce: inconclusive, never a violation
+            res['status'] = 'inconclusive'
+            res['detail'] = detail
+            counts['violated'] -= 1
+            counts['inconclusive'] += 1
+            continue
         if ok is None or ok:
             res['status'] = 'harness_error'
             res['detail'] = 'solver counterexample does not reproduce on real code (%s) model=%s' % (detail, json.dumps(res['model'])[:400])
@@ -115,6 +122,22 @@ def main():
             continue
         res['replay_detail'] = detail
         cover = [f for f in known if finding_covers(f, prop, res['spec'], res['params'], res['model'])]
+        if cover and cover[0].get('weak_rerun'):
+            # the finding excuses only its own behaviour: re-run the obligation with the oracle weakened to exactly the recorded
+            # defect; anything else that is wrong in the same region is still a violation
+            from vlib.runner import run_one
+            r2 = run_one(res['spec'], dict(res['params'], _known=cover[0]['id']))
+            if r2['status'] == 'violated':
+                try:
+                    ok2, detail2 = resolve(res['spec'] + '_concrete')(r2['params'], r2['model'])
+                except Exception as e:
+                    ok2, detail2 = None, repr(e)
+                if ok2 is False:
+                    res = r2
+                    res['replay_detail'] = detail = detail2
+                    cover = []
+            elif r2['status'] != 'proved':
+                res['weak_rerun'] = r2['status']
         if cover:
             known_hits.setdefault(cover[0]['id'], []).append(res)
             counts['violated'] -= 1
